@@ -197,6 +197,8 @@ fn main() -> miette::Result<()> {
             Ok(())
         }
         Some(Command::Check { name }) => {
+            // The lexer consults the feature flags; `check` takes none, so use the defaults
+            lace::features::init(Default::default());
             file_message(Green, "Checking", &name);
             let contents = StaticSource::new(fs::read_to_string(&name).into_diagnostic()?);
             let _ = assemble(&contents)?;
@@ -208,6 +210,8 @@ fn main() -> miette::Result<()> {
             if !name.exists() {
                 bail!("File does not exist. Exiting...")
             }
+            // As for `check`
+            lace::features::init(Default::default());
             // Vim breaks if watching a single file
             let folder_path = match name.parent() {
                 Some(pth) if pth.is_dir() => pth.to_path_buf(),
@@ -342,6 +346,11 @@ fn assemble(contents: &StaticSource) -> Result<Air> {
     let parser = lace::AsmParser::new(contents.src())?;
     let mut air = parser.parse()?;
     air.backpatch()?;
+    // Some errors (a label too far away for its offset field) only surface when the words are
+    // emitted. Catch them here, so that `check` and `watch` agree with `compile` and `run`
+    for stmt in &air {
+        stmt.emit()?;
+    }
     Ok(air)
 }
 
